@@ -150,7 +150,20 @@ class H2Protocol:
         self, headers: Optional[List[Tuple[bytes, bytes]]] = None, settings: Optional[str] = None
     ) -> None:
         if settings is not None:
-            self.connection.initiate_upgrade_connection(settings)
+            try:
+                self.connection.initiate_upgrade_connection(settings)
+            except Exception:
+                # A malformed HTTP2-Settings header (not base64url, not
+                # a SETTINGS payload), the 101 has been sent so all
+                # that is left is to end the connection.
+                self.connection = h2.connection.H2Connection(
+                    config=h2.config.H2Configuration(client_side=False, header_encoding=None)
+                )
+                self.connection.initiate_connection()
+                self.connection.close_connection(h2.errors.ErrorCodes.PROTOCOL_ERROR)
+                await self._flush()
+                await self.send(Closed())
+                return
         else:
             self.connection.initiate_connection()
         await self._flush()
